@@ -283,7 +283,13 @@ impl Model {
     // ------------------------------------------------------------------ bank
 
     fn bank_send(&mut self, sender: &str, to: &str, coins: &[(String, u128)]) -> Result<MResp, ()> {
-        self.module_call("bank", sender, format!("send:{}:{}", to, coins_string(coins)))?;
+        if sender == POOL {
+            // payouts of the block update: recorded, never subject to the fault plan
+            self.module_calls.push(ModCall { kind: "bank".to_string(), sender: sender.to_string(), payload: format!("send:{}:{}", to, coins_string(coins)) });
+            *self.call_counts.entry("bank".to_string()).or_insert(0) += 1;
+        } else {
+            self.module_call("bank", sender, format!("send:{}:{}", to, coins_string(coins)))?;
+        }
         let positive: Vec<&(String, u128)> = coins.iter().filter(|c| c.1 > 0).collect();
         if positive.is_empty() {
             self.fault("bank_empty_amount");
